@@ -83,6 +83,10 @@ def gen_case(rng, tier):
     elif k == "evtx":
         which = rng.choice(("noevents", "pnp") if tier != "quick" else ("noevents", "noevents", "pnp"))
         content = fixtures.load(which)
+        if which == "pnp" and rng.random() < 0.5:
+            # a small log (first 1..40 records): its compressed forms are a few KiB
+            import evtxmut
+            content, _ = evtxmut.first_records(content, rng.choice((1, 3, 10, 40)))
         base = "c.evtx"
     else:
         which = "u22x3" if tier == "quick" or rng.random() < 0.7 else rng.choice(("ubuntu16", "rhe91"))
